@@ -703,7 +703,7 @@ func c07Random(r *rand.Rand) c07Case {
 }
 
 func updateDirect(expr string, names map[string]string, item, values val.Item) (string, string, string, val.Item) {
-	li := &interpreter.Language{}
+	li := &interpreter.Language{Debug: directDebug}
 	ti := adapt.ItemToTypes(item)
 	if ti == nil {
 		ti = adapt.ItemToTypes(val.Item{})
